@@ -93,13 +93,15 @@ def info_case(draw):
             "ad2": [], "glob": glob, "o": o, "f": f}
 
 
-def expected_rows(orig, final, info, shifted=True):
+def expected_rows(orig, final, info, shifted=True, base=None):
     """Rows for one read. shifted=True: as the property demands; False: coordinates taken relative to the
-    pre-processed read but applied to the unprocessed one (known finding F7)."""
+    pre-processed read but applied to the unprocessed one (known finding F7).  base: the record the adapters were
+    searched in, if it is not orig / its reverse complement (paired --revcomp: the mate)."""
     rcflag = {None: "", True: "1", False: "0"}[info.is_rc]
     if not info.matches:
         return [[final[0], "-1", final[1], final[2] if final[2] is not None else ""]]
-    base = model.revcomp_record(orig) if info.is_rc else orig
+    if base is None:
+        base = model.revcomp_record(orig) if info.is_rc else orig
     whole, wq = base[1], base[2]
     off = (info.removed3 if info.is_rc else info.removed5) if shifted else 0
     rows = []
@@ -184,15 +186,87 @@ def check_info(sc, ctx):
         ctx.nontrivial_case({"args": args, "rows": rows[:3]})
 
 
-SUBS = {"info": Sub(strategy=lambda tier: info_case(), check=check_info)}
+# ----------------------------------------------------------------- paired-end input (rows describe R1)
+@st.composite
+def pairinfo_case(draw):
+    defs1 = draw(c09.adapter_list(allow_linked=False))[: draw(st.integers(1, 3))]
+    defs2 = draw(c09.adapter_list(1, allow_linked=False))[: draw(st.integers(0, 2))]
+    glob = {"no_index": True}
+    if draw(st.booleans()):
+        glob["e"] = draw(st.sampled_from([0, 0.1, 0.2]))
+    revcomp = draw(st.booleans())
+    o = {"times": draw(st.sampled_from([1, 1, 2])), "action": "trim", "revcomp": revcomp}
+    r1, r2 = draw(scen.reads(defs1 + defs2, defs2 + defs1, True, fastq=True, n_max=5))
+    if revcomp:
+        for k in range(len(r1)):
+            if draw(st.booleans()):  # the pair arrives the other way round
+                r1[k], r2[k] = [r1[k][0], r2[k][1], r2[k][2]], [r2[k][0], r1[k][1], r1[k][2]]
+    return {"sub": "pairinfo", "paired": True, "fastq": True, "r1": r1, "r2": r2, "ad1": defs1, "ad2": defs2,
+            "glob": glob, "o": o, "f": {}}
+
+
+def check_pairinfo(sc, ctx):
+    """In paired-end mode the info file describes R1 - the read that is R1 after the orientation decision."""
+    files, names = scen.input_files(sc)
+    args = scen.flatten(scen.mod_tokens(sc)) + ["--info-file", "info.tsv", "-o", "out1.fastq", "-p", "out2.fastq"]
+    r = cli.run(args + names, files)
+    if r.exit != 0:
+        raise Violation(f"cutadapt failed on {args}: exit={r.exit} {r.errors} {r.tb}")
+    lines = r.files["info.tsv"].decode().split("\n")
+    rows = [ln.split("\t") for ln in lines[:-1]]
+    mo, _ = scen.model_opts(sc)
+    ad1 = scen.build_adapters(sc["ad1"], sc["glob"])
+    ad2 = scen.build_adapters(sc["ad2"], sc["glob"])
+    ctx.label("revcomp" if sc["o"]["revcomp"] else "no-revcomp")
+    pos, nt, known = 0, False, 0
+    for a_, b_ in zip(sc["r1"], sc["r2"]):
+        o1, o2 = tuple(a_), tuple(b_)
+        f1, i1, f2, i2 = model.run_chain(mo, ad1, ad2, o1, o2)
+        swapped = bool(i1.is_rc)
+        base = (o1[0], o2[1], o2[2]) if swapped else o1
+        exp = expected_rows(o1, f1, i1, base=base)
+        got = rows[pos:pos + len(exp)]
+        pos += len(exp)
+        if swapped:
+            ctx.label("pair-swapped")
+        if got != exp:
+            rid = o1[0].split()[0]
+            if not [g for g in rows if g and g[0].split()[0] == rid]:
+                raise Violation(f"no info-file row for pair {rid} ({args})", observed=rows, expected=exp)
+            alt = expected_rows(o1, f1, i1, base=model.revcomp_record(o1))
+            if swapped and i1.matches and got == alt:
+                known += 1
+                ctx.label("known:F16-row")
+                continue
+            raise Violation(f"info-file rows of pair {rid} (R1 after the orientation decision: "
+                            f"{'the given R2' if swapped else 'the given R1'}) differ from the reconstruction; {args}",
+                            observed=got, expected=exp)
+        if i1.matches:
+            nt = True
+    if pos != len(rows):
+        raise Violation(f"info file has {len(rows)} rows, reconstruction gives {pos} ({args})", observed=rows[pos:])
+    if known:
+        raise Violation(f"paired --revcomp: for swapped pairs the info-file rows slice the reverse complement of the "
+                        f"given R1 at coordinates found on the given R2 ({known} pairs; {args})",
+                        tag="c17_paired_revcomp_swapped_pair_rows")
+    if nt:
+        ctx.nontrivial_case({"args": args, "rows": rows[:3]})
+
+
+SUBS = {"info": Sub(strategy=lambda tier: info_case(), check=check_info),
+        "pairinfo": Sub(strategy=lambda tier: pairinfo_case(), check=check_pairinfo)}
 
 SIGNATURES = {
     # raised only when every disagreement of the case is exactly "unshifted coordinates on a read from whose
     # searched 5' end bases were removed before adapter trimming" and everything else matched
     "c17_offset_after_5prime_removal": lambda case, v: v.tag == "c17_offset_after_5prime_removal",
+    # raised only when every disagreement of the case is exactly "a swapped pair whose rows equal slicing the reverse
+    # complement of the given R1 at the reported coordinates"
+    "c17_paired_revcomp_swapped_pair_rows": lambda case, v: v.tag == "c17_paired_revcomp_swapped_pair_rows",
 }
 
 
 def plan(tier):
     n, per = (14, 500) if tier == "quick" else (14, 15000)
-    return [{"sub": "info", "kind": "hyp", "examples": per} for _ in range(n)]
+    return [{"sub": "info", "kind": "hyp", "examples": per} for _ in range(n)] + \
+           [{"sub": "pairinfo", "kind": "hyp", "examples": per // 2} for _ in range(2)]
